@@ -32,6 +32,8 @@ pub fn gen_count_case(rng: &mut Rng, tier: &str, prop: &str) -> Case {
             tab_desc_pct: 0,
             utf8_id_pct: 0,
             dup_id_pct: 0,
+            mega_1_in: 0,
+            twin_mega_1_in: 40000,
     };
     let records = g.gen(rng);
     let total: usize = records.iter().map(|r| r.seq.len()).sum();
